@@ -1029,13 +1029,14 @@ package wire
 
 //@ func (*Server).Close
 //@   props C16 C04
-//@   requires srv != nil
-//@   requires [closer-invariant] {C16} srv.closer != nil && (chanclosed(srv.closer) <==> srv.closing.#aval)
-//@   ensures [closer-invariant] {C16} chanclosed(srv.closer) <==> srv.closing.#aval
-//@   ensures [idempotent] {C16} old(srv.closing.#aval) ==> (result == nil && srv.closing.#aval && srv.wg.#wgcnt == old(srv.wg.#wgcnt))
+//@   concurrent ServerShared(srv)
+//@   requires srv != nil && srv.closer != nil && srv.wg.#wgcnt >= 0
+//@   requires [closer-invariant] {C16} (chanclosed(srv.closer) ==> srv.closing.#aval) && (srv.closing.#mine ==> chanclosed(srv.closer))
 //@   ensures [closing-set] {C16} srv.closing.#aval && result == nil
-//@   ensures [waited] {C16} !old(srv.closing.#aval) ==> srv.wg.#wgcnt == 0
-//@   modifies srv.closing.#aval, srv.wg.#wgcnt, chanstate(srv.closer)
+//@   ensures [owner-closed] {C16} srv.closing.#mine ==> chanclosed(srv.closer)
+//@   ensures [late-caller-never-owner] {C16} (old(srv.closing.#aval) && !old(srv.closing.#mine)) ==> !srv.closing.#mine
+//@   ensures [waited] {C16} srv.wg.#wgcnt == 0
+//@   modifies srv.closing.#aval, srv.closing.#mine, srv.wg.#wgcnt, chanstate(srv.closer)
 
 // ---- options: each returns a closure applied by NewServer to the server under construction ----
 
